@@ -65,6 +65,7 @@ MIN_COUNTERS = {
               'gen_bytes_trees_compared': 300, 'gen_tuple_probes': 30,
               'op_compared': 500, 'meth_compared': 250,
               'meth_compared_with_tuple_arguments': 150,
+              'meth_canonical_calls': 30,
               'out_units_checked': 500, 'out_zero_inputs_checked': 100,
               'out_second_builds_with_shared_arguments': 300,
               'out_argument_snapshots_compared': 1000,
@@ -75,6 +76,7 @@ MIN_COUNTERS = {
                  'gen_bytes_trees_compared': 20000, 'gen_tuple_probes': 2000,
                  'op_compared': 30000, 'meth_compared': 15000,
                  'meth_compared_with_tuple_arguments': 5000,
+                 'meth_canonical_calls': 30,
                  'out_units_checked': 30000, 'out_zero_inputs_checked': 5000,
                  'out_second_builds_with_shared_arguments': 10000,
                  'out_argument_snapshots_compared': 50000,
@@ -690,6 +692,14 @@ def gen_build(acc, H, i, ent, templates, probes, classify, share, build_no):
             # bytes level
             if sd is None:
                 acc.count('gen_build_failed_after_body')
+                # arbitrary argument values legitimately fail the input
+                # rate/validity check of the build; anything else is not
+                # explained by the generated values
+                site = exc_site(bexc) if bexc is not None else ''
+                if not has_tuple and \
+                        site != 'ValueError@synthdef.py:_check_inputs':
+                    kind = 'build-raises/' + site
+                    wit['exception'] = short_tb(bexc)
             elif has_tuple or not ent['returns']:
                 acc.count('gen_bytes_skipped')
             else:
@@ -1032,14 +1042,80 @@ METHODS = {
 }
 
 
+# convenience methods with a documented meaning on plain numbers (the
+# builtins of the same name; lag-like methods return the number itself, as
+# sclang's SimpleNumber does): number elements of the receiver are in the
+# domain for these
+NUM_METHODS = {'clip', 'fold', 'wrap', 'linlin', 'linexp', 'bilin', 'degrad',
+               'raddeg', 'lag', 'lag2', 'lag3', 'lagud', 'lag2ud', 'lag3ud',
+               'varlag', 'slew'}
+
+
+def meth_leaf(H, name):
+    bi, UG = H.bi, H.ugn.UGen
+
+    def leaf(x):
+        r = x[0]
+        if isinstance(r, UG) or isinstance(r, list):
+            return getattr(r, name)(*x[1:])
+        if name in ('lag', 'lag2', 'lag3', 'lagud', 'lag2ud', 'lag3ud',
+                    'varlag', 'slew'):
+            return r
+        return getattr(bi, name)(r, *x[1:])
+    return leaf
+
+
+# canonical plain call per method: a method that raises for it (other than a
+# declared NotImplementedError) can never yield a channel list
+CANON_NUM = [0.25, 0.5, 0.75, 1.0, 2.0, 4.0]
+
+
+def usable_methods_monitor(acc, H):
+    for name in sorted(METHODS):
+        nreq, kinds = METHODS[name]
+        st = {}
+
+        def body():
+            a, b = H.make_ugen('audio'), H.make_ugen('audio')
+            args = []
+            for k, kd in enumerate(kinds[:max(nreq, min(len(kinds), 4))]):
+                if kd == 'ptype':
+                    break
+                args.append(H.make_ugen('audio') if kd == 'sig'
+                            else CANON_NUM[k])
+            try:
+                st['r'] = getattr(H.ChannelList([a, b]), name)(*args)
+            except NotImplementedError as e:
+                st['declared'] = str(e)
+            except Exception as e:
+                st['exc'] = e
+            st['args'] = repr(args)
+        H.build(body)
+        acc.count('meth_canonical_calls')
+        if 'exc' in st:
+            acc.violation(
+                f'C03/chlist-method/{name}/unusable/{exc_site(st["exc"])}',
+                {'case': 0, 'method': name, 'receiver': 'ChannelList of two '
+                 'audio units', 'args': st['args'],
+                 'exception': short_tb(st['exc'])})
+        elif 'r' in st and not (isinstance(st['r'], H.ChannelList)
+                                and len(st['r']) == 2):
+            acc.violation(f'C03/chlist-method/{name}/canonical-call-shape',
+                          {'case': 0, 'method': name, 'args': st['args'],
+                           'result': repr(st['r'])[:300]})
+
+
 def run_meth(spec, acc, H):
+    if spec.get('only_case') is None and spec['shard']['first_case'] == 0:
+        usable_methods_monitor(acc, H)
     names = sorted(METHODS)
     for i in iter_cases(spec):
         rng = case_rng(spec['seed'], 'C03', 'meth', i)
         name = rng.choice(names)
         nreq, kinds = METHODS[name]
         rates = rng.choice([('audio',), ('control',)])
-        recv = gen_receiver(rng, 0.0, rates, inner_plain=False)
+        recv = gen_receiver(rng, 0.2 if name in NUM_METHODS else 0.0, rates,
+                            inner_plain=False)
         n_given = rng.randint(nreq, len(kinds)) if rng.random() < 0.7 \
             else len(kinds)
         # tuple mode: every given argument is a sequence and at least one is a
@@ -1119,7 +1195,7 @@ def meth_build(acc, H, i, name, recv, args, classify, share, build_no):
         st['mutated'] = H.snap_diff(st['snap0'], H.snap(st['args']))
         stats = {}
         R, Rexc, cR = H.count_created(lambda: M.expand(
-            [rR] + aR, lambda x: getattr(x[0], name)(*x[1:]),
+            [rR] + aR, meth_leaf(H, name),
             H.ChannelList, stats))
         st.update(E=E, Eexc=Eexc, R=R, Rexc=Rexc, stats=stats)
         if Eexc is None and Rexc is None:
@@ -1132,7 +1208,7 @@ def meth_build(acc, H, i, name, recv, args, classify, share, build_no):
                 # arguments are (wrongly) taken for lists?
                 a2 = [list(x) if isinstance(x, tuple) else x for x in aR]
                 R2, x2, _ = H.count_created(lambda: M.expand(
-                    [rR] + a2, lambda x: getattr(x[0], name)(*x[1:]),
+                    [rR] + a2, meth_leaf(H, name),
                     H.ChannelList, {}))
                 st['tuple_expanded'] = x2 is None and \
                     H.diff_kind(E, R2, s) is None
